@@ -72,6 +72,16 @@ def zoo():
         m.f = Ode("f", -m.x * m.x + m.G / 10, m.x)
         return m, "DAE"
 
+    def ae_consts():
+        # coefficients that are symbol-free constants but not plain numbers
+        from sympy import pi, sqrt, E, Rational
+        m = Model()
+        m.x = Var("x", [0.3, 1.1])
+        m.z = Var("z", 0.8)
+        m.e1 = Eqn("e1", pi * m.x + sqrt(2) * m.z - E + Rational(1, 3) * m.x ** 2)
+        m.e2 = Eqn("e2", m.z * pi - m.x[0] * sqrt(3) + 2 * m.x[1] - 1)
+        return m, "AE"
+
     def dae_interleaved():
         m = Model()
         m.q = Var("q", 0.8)
@@ -114,7 +124,7 @@ def zoo():
         return m, "AE"
 
     return dict(ae_basic=ae_basic, ae_slices=ae_slices, ae_piecewise=ae_piecewise, dae_ts=dae_ts,
-                dae_interleaved=dae_interleaved, dae_ts_index=dae_ts_index, dae_awu=dae_awu, fdae_heat=fdae_heat, ae_trigger=ae_trigger)
+                dae_interleaved=dae_interleaved, ae_consts=ae_consts, dae_ts_index=dae_ts_index, dae_awu=dae_awu, fdae_heat=fdae_heat, ae_trigger=ae_trigger)
 
 
 def instantiate(builder):
